@@ -120,6 +120,26 @@ func udpLimit(v qview) int {
 // judge returns "ok" or the first violated clause. reply == nil means the
 // server stayed silent.
 func judge(entry string, ek entryKind, d deploy, query []byte, reply []byte) string {
+	return judgeHinted(entry, ek, d, query, reply, aR{})
+}
+
+// judgeHinted is judge; the scripted upstream response is used ONLY to label
+// a failure (an offending option that is byte-identical to one the upstream
+// put in its OPT gets the entry-independent signature of that defect class),
+// never to decide whether the reply is acceptable.
+func judgeHinted(entry string, ek entryKind, d deploy, query []byte, reply []byte, up aR) string {
+	fromUpstream := func(o aOption) bool {
+		if !up.opt.present || up.opt.same {
+			return false
+		}
+		for _, x := range up.opt.opts {
+			if x.code == o.code && bytes.Equal(x.data, o.data) {
+				return true
+			}
+		}
+		return false
+	}
+	const passThrough = "reply/option/upstream-option-passed-through"
 	v := viewQuery(query)
 	if !v.hdrOK {
 		return "-" // shorter than a header: the property says nothing
@@ -193,7 +213,7 @@ func judge(entry string, ek entryKind, d deploy, query []byte, reply []byte) str
 	}
 
 	// --- unsupported EDNS version gets BADVERS
-	if v.decodable && v.opcode() == 0 && v.qd == 1 && v.hasOPT && v.ver != 0 && (ek.listener || true) {
+	if v.decodable && v.opcode() == 0 && v.qd == 1 && v.hasOPT && v.ver != 0 && (ek.proto == "udp" || ek.proto == "tcp") {
 		if rm.Rcode != dns.RcodeBadVers {
 			return fail(e+"/verdict/version-not-badvers", fmt.Sprintf("ver=%d rcode=%d", v.ver, rm.Rcode))
 		}
@@ -246,9 +266,20 @@ func judge(entry string, ek entryKind, d deploy, query []byte, reply []byte) str
 
 	// --- options
 	if ropt != nil {
+		seen := map[int]int{}
 		for _, o := range optOptions(ropt) {
+			seen[o.code]++
+			if seen[o.code] > 1 && (o.code == optCookie || o.code == optKeepalive || o.code == optNSID) {
+				if fromUpstream(o) && o.code != optKeepalive {
+					return fail(passThrough, fmt.Sprintf("entry=%s duplicate code=%d", e, o.code))
+				}
+				return fail(e+"/option/duplicate", fmt.Sprintf("code=%d", o.code))
+			}
 			switch o.code {
 			case optECS:
+				if rm.Rcode == dns.RcodeBadVers {
+					return fail("reply/badvers/client-ecs-reflected", fmt.Sprintf("entry=%s %x", e, o.data))
+				}
 				return fail(e+"/option/ecs-reflected", fmt.Sprintf("%x", o.data))
 			case optKeepalive:
 				if ek.proto != "tcp" || !v.hasKA {
@@ -256,21 +287,30 @@ func judge(entry string, ek entryKind, d deploy, query []byte, reply []byte) str
 				}
 			case optCookie:
 				if v.clientCookie == nil {
+					if fromUpstream(o) {
+						return fail(passThrough, fmt.Sprintf("entry=%s cookie without client cookie %x", e, o.data))
+					}
 					return fail(e+"/option/cookie-without-client-cookie", fmt.Sprintf("%x", o.data))
 				}
 				if !bytes.Equal(o.data, serverCookieFor(d.remoteIP, v.clientCookie, d.secret)) {
+					if fromUpstream(o) {
+						return fail(passThrough, fmt.Sprintf("entry=%s foreign cookie %x", e, o.data))
+					}
 					return fail(e+"/option/cookie-not-ours", fmt.Sprintf("%x", o.data))
 				}
 			case optNSID:
-				if !v.wantsNSID || d.nsid == nil {
-					return fail(e+"/option/nsid-unrequested", fmt.Sprintf("asked=%v configured=%v", v.wantsNSID, d.nsid != nil))
-				}
-				if !bytes.Equal(o.data, d.nsid) {
-					return fail(e+"/option/nsid-foreign", fmt.Sprintf("%x", o.data))
+				if !v.wantsNSID || d.nsid == nil || !bytes.Equal(o.data, d.nsid) {
+					if fromUpstream(o) {
+						return fail(passThrough, fmt.Sprintf("entry=%s upstream nsid %x", e, o.data))
+					}
+					return fail(e+"/option/nsid-unrequested", fmt.Sprintf("asked=%v configured=%v data=%x", v.wantsNSID, d.nsid != nil, o.data))
 				}
 			case optEDE:
 				// the server's own diagnostics
 			default:
+				if fromUpstream(o) {
+					return fail(passThrough, fmt.Sprintf("entry=%s code=%d", e, o.code))
+				}
 				return fail(e+"/option/foreign", fmt.Sprintf("code=%d", o.code))
 			}
 		}
@@ -289,7 +329,7 @@ func judge(entry string, ek entryKind, d deploy, query []byte, reply []byte) str
 			if !(rm.Truncated && len(rm.Answer) == 0 && len(rm.Ns) == 0 && onlyOPT) {
 				return fail(e+"/udp/oversize", fmt.Sprintf("len=%d limit=%d tc=%v an=%d ns=%d", len(reply), lim, rm.Truncated, len(rm.Answer), len(rm.Ns)))
 			}
-			return fail(e+"/udp/truncated-still-oversize", fmt.Sprintf("len=%d limit=%d", len(reply), lim))
+			// a TC=1 reply holding only question and OPT is what the property allows
 		}
 	}
 	return "ok"
